@@ -8,12 +8,12 @@
 #include "nmtools/array/view/roll.hpp"
 // tile: reps is a bounded run-time list of 1..4 entries
 #define TILE(D) KERNEL int K(k_tile##D)(ARGS_IN, const size_t* reps, size_t nr, ARGS_OUT){ MK(D); return OBSV(view::tile(a, mk_sv<size_t,4>(reps,nr))); }
-FOR_DIMS(TILE)
+FOR_DIMS4(TILE)
 // repeat: scalar repeats, run-time axis / axis=None
 #define REPEAT(D) KERNEL int K(k_repeat##D)(ARGS_IN, size_t repeats, int axis, ARGS_OUT){ MK(D); return OBSV(view::repeat(a, repeats, axis)); } \
   KERNEL int K(k_repeat_flat##D)(ARGS_IN, size_t repeats, ARGS_OUT){ MK(D); return observe_fixed<1>(view::repeat(a, repeats, nm::None), idx, oshape, odim, out); }
-FOR_DIMS(REPEAT)
+FOR_DIMS4(REPEAT)
 // roll: run-time shift, run-time axis / axis=None
 #define ROLL(D) KERNEL int K(k_roll##D)(ARGS_IN, int shift, int axis, ARGS_OUT){ MK(D); return OBSV(view::roll(a, shift, axis)); } \
   KERNEL int K(k_roll_flat##D)(ARGS_IN, int shift, ARGS_OUT){ MK(D); return OBSV(view::roll(a, shift, nm::None)); }
-FOR_DIMS(ROLL)
+FOR_DIMS4(ROLL)
